@@ -361,15 +361,14 @@ func (rn *Runner) runBatch(cases []*Case) []*Result {
 			byDir[dir].Pkgs[rel] = p
 		}
 		// A load failure (type error somewhere) or anything else not attributable: fall back to solo runs.
-		var junk []string
-		for _, l := range rest {
-			if l == "at least one generate failure" || l == "generate failed" {
-				if l == "generate failed" {
-					junk = append(junk, l)
-				}
-				continue
+		// The closing line of a failing run ("at least one generate failure", "generate failed") is recognised by
+		// its position - the last message of a run that exits non-zero - not by its wording.
+		junk := rest
+		if res.Exit != 0 && len(junk) > 0 {
+			junk = junk[:len(junk)-1]
+			if attributed == 0 {
+				junk = rest // nothing but a closing line: the load itself failed
 			}
-			junk = append(junk, l)
 		}
 		if len(junk) > 0 {
 			solo = true
@@ -411,7 +410,7 @@ var reCaseDir = regexp.MustCompile(`/(c\d{5})(/|\b)`)
 
 // attributeByPath assigns each diagnostic (a "wire: " message with continuation lines)
 // to the case whose directory its first path mentions.
-func attributeByPath(stderr string) (map[string][]string, []string) {
+func attributeByPath(stderr string, exit int) (map[string][]string, []string) {
 	by := map[string][]string{}
 	var rest []string
 	var msgs []string
@@ -438,10 +437,12 @@ func attributeByPath(stderr string) (map[string][]string, []string) {
 	if cur != nil {
 		msgs = append(msgs, cur.String())
 	}
+	// every failing path of check and show ends with one closing line ("error loading packages"); it is recognised
+	// by its position - the last message of a run that exits non-zero - not by its wording
+	if exit != 0 && len(msgs) > 0 && reCaseDir.FindStringSubmatch(msgs[len(msgs)-1]) == nil {
+		msgs = msgs[:len(msgs)-1]
+	}
 	for _, m := range msgs {
-		if m == "error loading packages" {
-			continue
-		}
 		if mm := reCaseDir.FindStringSubmatch(m); mm != nil {
 			by[mm[1]] = append(by[mm[1]], m)
 		} else {
@@ -502,7 +503,7 @@ func (rn *Runner) runReadOnly(mod string, results []*Result, forceSolo bool) {
 		var by map[string][]string
 		if !soloAll {
 			var rest []string
-			by, rest = attributeByPath(res.Stderr)
+			by, rest = attributeByPath(res.Stderr, res.Exit)
 			if len(rest) > 0 {
 				soloAll = true
 			}
@@ -522,7 +523,7 @@ func (rn *Runner) runReadOnly(mod string, results []*Result, forceSolo bool) {
 				if sr.TimedOut || rePanic.MatchString(sr.Stderr) {
 					diags = []string{"CRASH: " + norm(tail(sr.Stderr, 1500), r.Case.Dir)}
 				} else {
-					m, rest := attributeByPath(sr.Stderr)
+					m, rest := attributeByPath(sr.Stderr, sr.Exit)
 					for _, d := range m[r.Case.Dir] {
 						diags = append(diags, norm(d, r.Case.Dir))
 					}
@@ -653,10 +654,9 @@ func (rn *Runner) runSolo(mod string, r *Result, sub string) {
 		}
 		r.Pkgs[rel] = p
 	}
-	for _, l := range rest {
-		if l == "generate failed" {
-			r.LoadFailed = true
-		}
+	// no package reached a verdict and the run failed: the load itself failed (the closing line's wording is not relied on)
+	if res.Exit != 0 && len(pk) == 0 && len(rest) > 0 {
+		r.LoadFailed = true
 	}
 	if r.LoadFailed {
 		// keep the load diagnostics on the root package
